@@ -1069,3 +1069,36 @@ Proof.
   exists (fst (run [] ex_before)), 131, 5, ex_gs, 1%nat. eexists. eexists.
   vm_compute. repeat split; try reflexivity. discriminate.
 Qed.
+
+(* ---------------------------------------------------------------- counting started at epoch 0 *)
+
+(** A definition may arrive (genesis, AddEpochInfo) with counting already started and epoch number 0.  Its advance
+    0 -> 1 is NOT a "very first tick" (that is the tick that starts the counting): it is an ordinary advance — the end
+    hook for the finished epoch 0, then the start hook for epoch 1 — and every receiver behind the fan-out sees both. *)
+Lemma started_epoch_zero_advance_is_ordinary t h e k r :
+  e_started e = true -> e_cur e = 0 -> should_tick e t = true -> (r < k)%nat ->
+  e_cur (fst (step_info t h e)) = 1 /\
+  snd (step_info t h e) = [AfterEnd (e_id e) 0; BeforeStart (e_id e) 1] /\
+  tick_hooks e = [AfterEnd (e_id e) 0; BeforeStart (e_id e) 1] /\
+  map snd (filter (fun x : nat * hook => Nat.eqb (fst x) r) (fanout k (snd (step_info t h e)))) =
+  [AfterEnd (e_id e) 0; BeforeStart (e_id e) 1].
+Proof.
+  intros Hs Hc St Hr. rewrite fanout_each_hook_sees_every_call by exact Hr.
+  unfold step_info, tick, tick_hooks. rewrite St, Hs, Hc. cbn. auto.
+Qed.
+
+Definition started_at_zero : einfo :=
+  {| e_id := 0; e_start := 0; e_dur := 10; e_cur := 0; e_cur_start := 0; e_height := 0; e_started := true |}.
+
+(** the variant whose fan-out drops AfterEpochEnd(id, 0): a well-formed, counting info at epoch 0 advances to 1 and no
+    receiver sees the end hook of the finished epoch — the per-block property ([tick_hooks]) is false on every log *)
+Lemma end_of_epoch_zero_refuted_for_skipping_fanout :
+  exists (e : einfo) (t h : Z) (k r : nat),
+    wf_info t e /\ e_started e = true /\ (r < k)%nat /\ e_cur (fst (step_info t h e)) = e_cur e + 1 /\
+    map snd (filter (fun x : nat * hook => Nat.eqb (fst x) r) (fanout_v true k (snd (step_info t h e)))) <> tick_hooks e /\
+    map snd (filter (fun x : nat * hook => Nat.eqb (fst x) r) (fanout_v false k (snd (step_info t h e)))) = tick_hooks e.
+Proof.
+  exists started_at_zero, 10, 1, 2%nat, 1%nat.
+  split; [split; [discriminate|intros _; cbn; lia]|]. split; [reflexivity|]. split; [lia|].
+  split; [reflexivity|]. split; [vm_compute; discriminate|vm_compute; reflexivity].
+Qed.
